@@ -1,5 +1,450 @@
-use crate::common::Ctx;
-pub fn run(_ctx: &Ctx, _replay: Option<&serde_json::Value>) -> i32 {
-    eprintln!("not implemented");
-    2
+//! C02 — evaluation is deterministic and free of side effects on values.
+//!
+//! (i) histories: every program after every history of <= 2 earlier programs in the same process;
+//! (ii) environment answers: every HashMap iteration order the H1 seam can give, with <= 2
+//!      deviations from the default, at every choice point a program reaches;
+//! (iii) twice: evaluating an expression twice gives equal values and leaves every earlier
+//!      binding untouched; (iv) let-abstraction of every sub-expression; (v) the real binary,
+//!      repeated in fresh processes.
+
+use crate::common::*;
+use crate::proc::run_blots;
+use crate::tgen::*;
+use blots_core::verif_hooks;
+use serde_json::{Value as J, json};
+
+fn programs() -> Vec<&'static str> {
+    vec![
+        "output x = 1 + 2",
+        "a = 1\nb = 2\nc = 3\nd = 4\noutput f = x => a + b + c + d + x\noutput y = f(1)",
+        "a = 1\nb = [2]\noutput f = x => [a, b, x]",
+        "a = \"s\"\nb = {k: 1}\nc = n => n + 1\noutput g = x => {a, b, v: c(x)}\noutput r = g(2)",
+        "k1 = 1\nk2 = 2\nk3 = 3\nk4 = 4\nk5 = 5\nk6 = 6\noutput h = () => [k6, k5, k4, k3, k2, k1]\noutput r = h()",
+        "l = [3, 1, 2]\noutput s = sort(l)\noutput l2 = l",
+        "l = [3, 1, 2]\noutput r = reverse(l)\noutput u = unique(concat(l, l))\noutput l2 = l",
+        "l = [3, 1, 2]\noutput s = [...l, ...l]\noutput m = l via (x => x * 2)\noutput l2 = l",
+        "r = {b: 1, a: 2, c: {z: 1, y: 2}}\noutput k = keys(r)\noutput e = entries(r)\noutput r2 = {...r, d: 4}",
+        "l = [\"b\", \"a\", \"b\", \"c\"]\noutput g = group_by(l, x => x)\noutput c = count_by(l, x => x)",
+        "output r = random(7)\noutput r2 = random(7)\noutput r3 = [random(1), random(2)]",
+        "output x = nope",
+        "a = 1\na = 2",
+        "output x = 1 +",
+        "f = n => if n <= 1 then 1 else n * f(n - 1)\noutput r = f(10)",
+        "ev = n => if n == 0 then true else od(n - 1)\nod = n => if n == 0 then false else ev(n - 1)\noutput r = [ev(10), od(7)]",
+        "output r = [1, 2, 3] via (x => x * 2) where (x => x > 2) into sum",
+        "output r = do {\n  a = 1\n  b = a + 1\n  return [a, b]\n}",
+        "mk = k => (n => n + k)\noutput add2 = mk(2)\noutput add3 = mk(3)\noutput r = [add2(1), add3(1)]",
+        "s = \"h\u{e9}llo\"\noutput r = [len(s), uppercase(s), split(s, \"l\"), s[1], [...s]]",
+        "output r = convert(1, \"km\", \"m\")\noutput t = convert(100, \"c\", \"f\")",
+        "output r = format(\"{} and {}\", 1234567.891, [1, \"a\"])",
+        "output r = {a: 1}.a + [1, 2][1] + (x => x)(3)",
+        "output r = [1, 2] + [3, 4]\noutput q = [1, 2] * 2\noutput e = [1, \"a\"] == [1, \"b\"]",
+        "output r = median([3, 1, 2])\noutput p = percentile([1, 2, 3, 4], 50)\noutput s = sum(1, 2, 3)",
+        "output r = inputs\noutput k = #k",
+        "a = 1\noutput f = x => do {\n  t = a\n  a = x\n  return [t, a]\n}\noutput r = f(5)",
+        "output r = zip([1, 2], [\"a\"])\noutput c = chunk([1, 2, 3], 2)\noutput f = flatten([[1], [2, [3]]])",
+        "output r = [1, 2, 3] where ((x, i) => i > 0)",
+        "output r = reduce([1, 2, 3], (a, x, i) => a + x * i, 0)",
+        "output big = range(200) via (x => x * x) into sum",
+        "output r = sort_by([{k: 2}, {k: 1}], x => x.k)",
+        "output r = to_string(1.5) + to_string([1, {a: 2}])\noutput n = to_number(\"2.5\")",
+        "t = typeof(sum)\noutput r = [t, typeof(x => x), arity((a, b?) => a)]",
+        "output r = 1 / 0\noutput q = [0 / 0] == [0 / 0]",
+    ]
+}
+
+/// Observable result of running a program in a fresh session: status, outputs, bindings.
+fn observe(p: &str) -> String {
+    let mut s = Session::with_inputs(&[("k", json!("v"))]);
+    s.sv_mode = true;
+    let o = s.run(p);
+    let snap: Vec<String> = s.snapshot().into_iter().map(|(k, v)| format!("{}={}", k, v)).collect();
+    format!("{} || outputs {} || bindings {}", o.cmp_key(), s.outputs_json(), snap.join("; "))
+}
+
+fn observe_scripted(p: &str, script: Vec<usize>) -> (String, Vec<(usize, usize)>) {
+    verif_hooks::reset(script);
+    let r = observe(p);
+    let log = verif_hooks::take_log();
+    verif_hooks::reset(vec![]);
+    (r, log)
+}
+
+const PRELUDE: &str = "gl = [3, 1, 2]\ngr = {b: 1, a: [1, 2]}\ngs = \"abc\"\ngf = x => x + 1\ngn = 2\n";
+
+fn typed(t: &T) -> T {
+    let m = |n: &str| -> T {
+        match n {
+            "a" | "g" => T::id("gl"),
+            "b" | "h" => T::id("gr"),
+            "c" | "i" => T::id("gs"),
+            "d" | "j" => T::id("gf"),
+            "e" | "m" => T::id("gn"),
+            "f" | "n" => T::num(1.0),
+            o => T::id(o),
+        }
+    };
+    map_leaves(t, &m)
+}
+
+fn map_leaves(t: &T, m: &dyn Fn(&str) -> T) -> T {
+    let b = |x: &T| Box::new(map_leaves(x, m));
+    match t {
+        T::Id(n) => m(n),
+        T::Num(_) | T::Str(_) | T::Bool(_) | T::Null | T::Inp(_) => t.clone(),
+        T::List(v) => T::List(v.iter().map(|x| map_leaves(x, m)).collect()),
+        T::Rec(es) => T::Rec(
+            es.iter()
+                .map(|e| match e {
+                    RE::Kv(k, v) => RE::Kv(k.clone(), map_leaves(v, m)),
+                    RE::Qkv(k, v) => RE::Qkv(k.clone(), map_leaves(v, m)),
+                    RE::Dyn(k, v) => RE::Dyn(map_leaves(k, m), map_leaves(v, m)),
+                    RE::Short(_) => RE::Short("gl".into()),
+                    RE::Spread(v) => RE::Spread(map_leaves(v, m)),
+                })
+                .collect(),
+        ),
+        T::Lam(a, body) => T::Lam(a.clone(), b(body)),
+        T::Cond(x, y, z) => T::Cond(b(x), b(y), b(z)),
+        T::Do(s, r) => T::Do(s.iter().map(|x| map_leaves(x, m)).collect(), b(r)),
+        T::Assign(n, v) => T::Assign(n.clone(), b(v)),
+        T::Call(f, a) => T::Call(b(f), a.iter().map(|x| map_leaves(x, m)).collect()),
+        T::Index(x, y) => T::Index(b(x), b(y)),
+        T::Field(x, f) => T::Field(b(x), f.clone()),
+        T::Bin(op, x, y) => T::Bin(*op, b(x), b(y)),
+        T::Neg(x) => T::Neg(b(x)),
+        T::Bang(x) => T::Bang(b(x)),
+        T::NotW(x) => T::NotW(b(x)),
+        T::Fact(x) => T::Fact(b(x)),
+        T::Spread(x) => T::Spread(b(x)),
+        T::Output(x) => T::Output(b(x)),
+    }
+}
+
+fn has_assign(t: &T) -> bool {
+    let mut found = matches!(t, T::Assign(..));
+    t.for_children(|c| found = found || has_assign(c));
+    found
+}
+
+/// All (path, subtree) pairs of compound, assignment-free, non-spread sub-expressions.
+fn subterms(t: &T, path: &mut Vec<usize>, out: &mut Vec<(Vec<usize>, T)>) {
+    let mut i = 0;
+    t.for_children(|c| {
+        path.push(i);
+        if !c.is_leaf() && !matches!(c, T::Spread(_)) && !has_assign(c) {
+            out.push((path.clone(), c.clone()));
+        }
+        subterms(c, path, out);
+        path.pop();
+        i += 1;
+    });
+}
+
+/// Replace the sub-tree at `path` (child indices in `for_children` order) by `with`.
+fn replace_at(t: &T, path: &[usize], with: &T) -> T {
+    if path.is_empty() {
+        return with.clone();
+    }
+    let mut idx = 0usize;
+    let target = path[0];
+    let mut next = |c: &T| -> T {
+        let r = if idx == target { replace_at(c, &path[1..], with) } else { c.clone() };
+        idx += 1;
+        r
+    };
+    match t {
+        T::List(v) => T::List(v.iter().map(&mut next).collect()),
+        T::Rec(es) => T::Rec(
+            es.iter()
+                .map(|e| match e {
+                    RE::Kv(k, v) => RE::Kv(k.clone(), next(v)),
+                    RE::Qkv(k, v) => RE::Qkv(k.clone(), next(v)),
+                    RE::Dyn(k, v) => {
+                        let k2 = next(k);
+                        RE::Dyn(k2, next(v))
+                    }
+                    RE::Short(n) => RE::Short(n.clone()),
+                    RE::Spread(v) => RE::Spread(next(v)),
+                })
+                .collect(),
+        ),
+        T::Lam(a, b) => T::Lam(a.clone(), Box::new(next(b))),
+        T::Cond(a, b, c) => {
+            let a2 = next(a);
+            let b2 = next(b);
+            T::Cond(Box::new(a2), Box::new(b2), Box::new(next(c)))
+        }
+        T::Do(s, r) => {
+            let s2: Vec<T> = s.iter().map(&mut next).collect();
+            T::Do(s2, Box::new(next(r)))
+        }
+        T::Assign(n, v) => T::Assign(n.clone(), Box::new(next(v))),
+        T::Call(f, a) => {
+            let f2 = next(f);
+            T::Call(Box::new(f2), a.iter().map(&mut next).collect())
+        }
+        T::Index(a, b) => {
+            let a2 = next(a);
+            T::Index(Box::new(a2), Box::new(next(b)))
+        }
+        T::Field(a, f) => T::Field(Box::new(next(a)), f.clone()),
+        T::Bin(op, a, b) => {
+            let a2 = next(a);
+            T::Bin(*op, Box::new(a2), Box::new(next(b)))
+        }
+        T::Neg(a) => T::Neg(Box::new(next(a))),
+        T::Bang(a) => T::Bang(Box::new(next(a))),
+        T::NotW(a) => T::NotW(Box::new(next(a))),
+        T::Fact(a) => T::Fact(Box::new(next(a))),
+        T::Spread(a) => T::Spread(Box::new(next(a))),
+        T::Output(a) => T::Output(Box::new(next(a))),
+        leaf => leaf.clone(),
+    }
+}
+
+fn session_with_prelude() -> Session {
+    let mut s = Session::new();
+    s.sv_mode = true;
+    let o = s.run(PRELUDE);
+    assert!(o.is_ok(), "prelude failed: {:?}", o);
+    s
+}
+
+fn check_expression(ctx: &Ctx, t: &T) {
+    let e = t.full();
+    // (iii) twice, and earlier bindings untouched
+    let mut s = session_with_prelude();
+    let before = s.snapshot();
+    let first = s.run(&format!("x1 = {}", e));
+    let second = s.run(&format!("x2 = {}", e));
+    ctx.count(2);
+    let case = json!({"expr": e});
+    if first.cmp_key() != second.cmp_key() && !has_assign(t) {
+        ctx.violation(Violation { kind: "twice-differs".into(), class: crate::c07::shape_class(t), input: e.clone(), expected: first.cmp_key(), observed: second.cmp_key(), case: case.clone() });
+    }
+    let after = s.snapshot();
+    for (k, v) in &before {
+        if after.get(k) != Some(v) {
+            ctx.violation(Violation { kind: "earlier-binding-changed".into(), class: crate::c07::shape_class(t), input: format!("{} ;; binding {}", e, k), expected: v.clone(), observed: format!("{:?}", after.get(k)), case: case.clone() });
+        }
+    }
+    if first.is_ok() {
+        ctx.outcome("expression-evaluates");
+        let eq = s.run("x1 .== x2");
+        // NaN-containing values are not .== to themselves; functions are compared by structure
+        if let (Outcome::Ok(v), Outcome::Ok(c)) = (&eq, &first) {
+            if v == "false" && !c.contains("NaN") {
+                ctx.violation(Violation { kind: "twice-not-equal".into(), class: crate::c07::shape_class(t), input: e.clone(), expected: "x1 .== x2".into(), observed: "false".into(), case: case.clone() });
+            }
+        }
+    } else {
+        ctx.outcome("expression-fails");
+    }
+    ctx.nontrivial(&e);
+    // (iv) let-abstraction of every sub-expression that evaluates on its own
+    if has_assign(t) {
+        return;
+    }
+    let mut subs = vec![];
+    subterms(t, &mut vec![], &mut subs);
+    let reference = {
+        let mut s = session_with_prelude();
+        s.run(&e)
+    };
+    for (path, sub) in subs {
+        let mut s2 = session_with_prelude();
+        let bound = s2.run(&format!("tmp = {}", sub.full()));
+        ctx.count(1);
+        if !bound.is_ok() {
+            ctx.outcome("subterm-fails-alone");
+            continue;
+        }
+        let replaced = replace_at(t, &path, &T::id("tmp"));
+        let got = s2.run(&replaced.full());
+        ctx.count(1);
+        ctx.outcome("let-abstraction-checked");
+        if got.cmp_key() != reference.cmp_key() {
+            ctx.violation(Violation {
+                kind: "let-abstraction".into(),
+                class: crate::c07::shape_class(t),
+                input: format!("{}  ==>  tmp = {} ; {}", e, sub.full(), replaced.full()),
+                expected: reference.cmp_key(),
+                observed: got.cmp_key(),
+                case: json!({"expr": e, "sub": sub.full(), "replaced": replaced.full()}),
+            });
+        }
+    }
+}
+
+/// Every script over the logged choice points with at most `max_dev` non-default answers.
+fn deviation_scripts(log: &[(usize, usize)], max_dev: usize) -> Vec<Vec<usize>> {
+    let mut out: Vec<Vec<usize>> = vec![];
+    let n = log.len();
+    for i in 0..n {
+        for a in 1..log[i].1 {
+            let mut s = vec![0; n];
+            s[i] = a;
+            out.push(s.clone());
+            if max_dev >= 2 {
+                for j in (i + 1)..n {
+                    for b in 1..log[j].1 {
+                        let mut s2 = s.clone();
+                        s2[j] = b;
+                        out.push(s2);
+                    }
+                }
+            }
+        }
+    }
+    out
+}
+
+pub fn run(ctx: &Ctx, replay: Option<&J>) -> i32 {
+    let progs = programs();
+    if let Some(r) = replay {
+        let c = &r["case"];
+        if let Some(p) = c["program"].as_str() {
+            let script: Vec<usize> = c["script"].as_array().map(|a| a.iter().map(|x| x.as_u64().unwrap_or(0) as usize).collect()).unwrap_or_default();
+            let (base, _) = observe_scripted(p, vec![]);
+            let (got, log) = observe_scripted(p, script.clone());
+            println!("program:\n{}\nscript {:?} (choice points {:?})\nbaseline: {}\nobserved: {}", p, script, log, base, got);
+            return if base == got { 0 } else { 1 };
+        }
+        println!("{}", c);
+        return 1;
+    }
+    let thorough = !ctx.quick();
+    // ---- (i) histories
+    let baseline: Vec<String> = progs.iter().map(|p| observe(p)).collect();
+    let n = progs.len();
+    let mut hist: Vec<Vec<usize>> = vec![vec![]];
+    for a in 0..n {
+        hist.push(vec![a]);
+    }
+    for a in 0..n {
+        for b in 0..n {
+            if thorough || (a + b) % 3 == 0 {
+                hist.push(vec![a, b]);
+            }
+        }
+    }
+    let mut transitions: u64 = 0;
+    let results: Vec<Vec<(usize, String)>> = par_map(&hist, |h| {
+        // same process, same thread: run the history, then every program
+        for i in h {
+            let _ = observe(progs[*i]);
+        }
+        (0..n).map(|p| (p, observe(progs[p]))).collect()
+    });
+    for (h, res) in hist.iter().zip(results.iter()) {
+        for (p, got) in res {
+            transitions += 1;
+            ctx.count(1);
+            ctx.outcome("history-case");
+            if got != &baseline[*p] {
+                ctx.violation(Violation {
+                    kind: "history-dependent".into(),
+                    class: format!("program{}", p),
+                    input: format!("after programs {:?}: {}", h, progs[*p]),
+                    expected: baseline[*p].clone(),
+                    observed: got.clone(),
+                    case: json!({"history": h, "program": progs[*p], "script": []}),
+                });
+            }
+        }
+    }
+    ctx.nontrivial_many((0..hist.len() as u64).map(|i| fnv(&format!("hist{}", i))));
+    // ---- (ii) iteration orders through the H1 seam
+    let mut states: u64 = hist.len() as u64;
+    let mut total_points = 0usize;
+    let mut total_scripts = 0usize;
+    for (pi, p) in progs.iter().enumerate() {
+        let (base, log) = observe_scripted(p, vec![]);
+        if base != baseline[pi] {
+            ctx.violation(Violation { kind: "not-reproducible".into(), class: format!("program{}", pi), input: p.to_string(), expected: baseline[pi].clone(), observed: base.clone(), case: json!({"program": p, "script": []}) });
+        }
+        total_points += log.len();
+        let scripts = deviation_scripts(&log, if thorough || log.len() <= 6 { 2 } else { 1 });
+        total_scripts += scripts.len();
+        for sc in scripts {
+            let (got, log2) = observe_scripted(p, sc.clone());
+            transitions += 1;
+            states += 1;
+            ctx.count(1);
+            ctx.outcome("iteration-order-case");
+            ctx.nontrivial(&format!("order:{}:{:?}", pi, sc));
+            if log2.len() != log.len() {
+                // a different order must not change which choice points are reached
+                ctx.violation(Violation { kind: "order-changes-control-flow".into(), class: format!("program{}", pi), input: format!("{} with answers {:?}", p, sc), expected: format!("{} choice points", log.len()), observed: format!("{} choice points", log2.len()), case: json!({"program": p, "script": sc}) });
+            }
+            if got != base {
+                ctx.violation(Violation { kind: "iteration-order-dependent".into(), class: format!("program{}", pi), input: format!("{} with iteration-order answers {:?}", p, sc), expected: base.clone(), observed: got, case: json!({"program": p, "script": sc}) });
+            }
+        }
+    }
+    ctx.set("choice_points_reached", json!(total_points));
+    ctx.set("order_scripts", json!(total_scripts));
+    if total_points < 20 {
+        ctx.machinery_error(format!("vacuity guard: only {} iteration-order choice points reached", total_points));
+    }
+    // ---- (iii) + (iv) expressions over shared data
+    let mut stats = GenStats::default();
+    let kinds = all_kinds();
+    let mut trees: Vec<T> = if thorough { single_slot(&kinds, &kinds, &mut stats) } else { single_slot(&representative_kinds(), &kinds, &mut stats) };
+    for k in &kinds {
+        if k.is_expr {
+            let mut s = LeafSupply::new();
+            trees.push(with_leaves(k, &mut s));
+        }
+    }
+    let mut exprs: Vec<T> = trees.iter().map(typed).collect();
+    // built-ins applied to the shared values
+    for f in ["sort", "reverse", "unique", "flatten", "len", "head", "tail", "keys", "values", "entries", "sum", "max", "median", "typeof", "to_string", "uppercase", "trim"] {
+        for a in ["gl", "gr", "gs", "gn"] {
+            exprs.push(T::call(T::id(f), vec![T::id(a)]));
+        }
+    }
+    for (f, a, b) in [("concat", "gl", "gl"), ("map", "gl", "gf"), ("filter", "gl", "gf"), ("zip", "gl", "gl"), ("chunk", "gl", "gn"), ("split", "gs", "gs"), ("includes", "gl", "gn"), ("sort_by", "gl", "gf"), ("group_by", "gl", "to_string"), ("join", "gl", "gs"), ("percentile", "gl", "gn"), ("round", "gn", "gn")] {
+        exprs.push(T::call(T::id(f), vec![T::id(a), T::id(b)]));
+        exprs.push(T::List(vec![T::call(T::id(f), vec![T::id(a), T::id(b)]), T::id(a)]));
+    }
+    {
+        let mut seen = std::collections::HashSet::new();
+        exprs.retain(|t| seen.insert(t.full()));
+    }
+    ctx.set("expressions", json!(exprs.len()));
+    par_for_ctx(ctx, exprs.len(), |i| check_expression(ctx, &exprs[i]));
+    // ---- (v) the real binary, fresh processes (repetition, not the deciding step)
+    let reps = if thorough { 8 } else { 3 };
+    let cli: Vec<Vec<String>> = par_map(&progs, |p| {
+        (0..reps)
+            .map(|_| {
+                let r = run_blots(&[p.to_string(), "-i".into(), "{\"k\": \"v\"}".into()], None, None);
+                format!("{:?}|{}|{}", r.code, r.stdout, r.stderr)
+            })
+            .collect()
+    });
+    for (p, runs) in progs.iter().zip(cli.iter()) {
+        ctx.count(runs.len());
+        ctx.outcome("cli-repetition");
+        if runs.iter().any(|r| r != &runs[0]) {
+            ctx.violation(Violation { kind: "process-dependent".into(), class: "cli".into(), input: p.to_string(), expected: truncate(&runs[0], 200), observed: truncate(runs.iter().find(|r| *r != &runs[0]).unwrap(), 200), case: json!({"program": p, "script": []}) });
+        }
+    }
+    ctx.sample(json!({"history": [progs[5], progs[10]], "then": progs[1]}));
+    ctx.sample(json!({"iteration_order": {"program": progs[4], "answers": [3, 0]}}));
+    ctx.sample(json!({"let_abstraction": "tmp = sort(gl) ; [tmp, gl]  vs  [sort(gl), gl]"}));
+    ctx.require_outcome("history-case", 1000);
+    ctx.require_outcome("iteration-order-case", 100);
+    ctx.require_outcome("let-abstraction-checked", 500);
+    ctx.require_outcome("expression-evaluates", 100);
+    ctx.assume("time_now and print are excluded; for scopes with more than 4 names only n+1 of the n! iteration orders are enumerated; at most two simultaneous non-default iteration orders");
+    finish(
+        ctx,
+        "model_checking",
+        "states = histories of <= 2 earlier programs (35-program alphabet) and iteration-order answer scripts with <= 2 deviations at the choice points each program reaches (H1 seam: captured scopes and environments); transitions = one whole-program evaluation in a fresh session, observed as status + outputs JSON + all bindings and compared with the empty-history / default-order run; plus every generated expression (every kind, parent x child spines over shared list / record / string / function / number leaves, built-ins applied to shared values) evaluated twice with all earlier bindings re-checked, and let-abstraction of every assignment-free sub-expression; the real binary repeated in fresh processes; distinct = histories, (program, script) pairs and expressions",
+        true,
+        Some((states, transitions, transitions)),
+    )
 }
